@@ -672,7 +672,34 @@ def dry_lines(r, toks, n):
             out += ["query Params", "query PausedProtocols", "query PausedActions", "export"]
         if r.chance(1, 10):
             out.append(orb_pkt("recv", 1000, cctp_fwd(domain=0, passthrough=b"\x01" * r.choice([0, 3, 30])), [fee_action([(U[3], "b", 50)])]))
-    lines += out
+    lines0 = lines
+    lines = []
+    # every kind of write, each followed by every kind of read, first on a dropped branch and then the same reads for real: what a
+    # read computed on the branch (and might remember outside the store) is not what holds afterwards
+    fee = [fee_action([(U[3], "b", 50)])]
+
+    def reads():
+        q = ["query PausedProtocols", "query PausedActions", "query Params", "query PausedCrossChains %s nopage" % hx("PROTOCOL_CCTP"),
+             "query DispatchedAmountsBySrc %s nopage" % hx("PROTOCOL_IBC"),
+             "query DispatchedCounts %s %s %s %s" % (hx("PROTOCOL_IBC"), hx("channel-0"), hx("PROTOCOL_CCTP"), hx("0")),
+             "query DispatchedAmounts %s %s %s %s %s" % (hx("PROTOCOL_IBC"), hx("channel-0"), hx("PROTOCOL_INTERNAL"), hx("noble"), hx("uusdc"))]
+        q += ["query IsProtocolPaused " + hx(p_) for p_ in PROTO_NAMES] + ["query IsActionPaused " + hx(a_) for a_ in ACTION_NAMES]
+        q += ["query IsCrossChainPaused %s %s" % (hx(p_), hx(c_)) for p_, c_ in (("PROTOCOL_CCTP", "0"), ("PROTOCOL_HYPERLANE", "1"), ("PROTOCOL_INTERNAL", "noble"))]
+        q += [orb_pkt("recv", 10 ** 6, cctp_fwd(domain=0), fee), orb_pkt("recv", 10 ** 6, hyp_fwd(tok, domain=1, gas=100000, fee=("uusdc", 10 ** 6))),
+              orb_pkt("recv", 10 ** 6, int_fwd(U[1]), fee), orb_pkt("recv", 1000, cctp_fwd(domain=0, passthrough=b"\x07")), orb_pkt("recv", 1000, int_fwd(U[1]), [swap_action()]),
+              orb_pkt("recv", 1000, int_fwd(U[1]), None, denom="uother")]
+        return q
+    writers = [[msg_line("PauseProtocol", AUTHORITY, hx("PROTOCOL_CCTP"))], [msg_line("PauseProtocol", AUTHORITY, hx("PROTOCOL_INTERNAL"))],
+               [msg_line("PauseAction", AUTHORITY, hx("ACTION_FEE"))], [msg_line("PauseAction", AUTHORITY, hx("ACTION_SWAP"))],
+               [msg_line("PauseCrossChains", AUTHORITY, hx("PROTOCOL_CCTP"), hx("0"))], [msg_line("PauseCrossChains", AUTHORITY, hx("PROTOCOL_HYPERLANE"), hx("1"))],
+               [msg_line("PauseCrossChains", AUTHORITY, hx("PROTOCOL_INTERNAL"), hx("noble"))], [msg_line("UpdateParams", AUTHORITY, "5")],
+               [orb_pkt("recv", 777, cctp_fwd(domain=0)), orb_pkt("recv", 777, int_fwd(U[1]))],
+               ["env ftfpause 1"], ["env blacklist %s 1" % addr(1 + 1).hex()], ["env cctppause burn 1"], ["env cctppause send 1"], ["env burnlimit 5"],
+               ["env hyp unroll %s 1" % hx(tok)], ["env hyp enroll %s 1 77" % hx(tok)], ["env hyp igp %s 1 10000000000 1 50000" % hx("uusdc")],
+               ["env recvenabled 0"], ["deposit %s %s 12345" % (hx(ORB_BYTES), hx("uusdc"))]]
+    for w_ in writers:
+        lines += ["drybegin"] + w_ + reads() + ["dryend"] + reads()
+    lines.append("export")
     # a warp token created and used on a dropped branch, then its identifier assigned again to a token of another denomination
     t3 = tok[:-8] + (2).to_bytes(8, "big")
     lines += ["drybegin", "env hyp setup " + hx("uother"), "env hyp token %s %s" % (hx(t3), hx("uother")), "env hyp enroll %s 1 0" % hx(t3),
@@ -681,6 +708,7 @@ def dry_lines(r, toks, n):
               "deposit %s %s 5000" % (hx(ORB_BYTES), hx("uusdc")),
               orb_pkt("recv", 1000, hyp_fwd(t3, domain=1), None, denom="uother"),
               orb_pkt("recv", 1000, hyp_fwd(t3, domain=1), None, denom="uusdc"), "export"]
+    lines = lines0 + lines + out
     return lines
 
 
@@ -754,6 +782,41 @@ def case_variant_lines(toks):
     return lines
 
 
+def surroundings_lines(toks):
+    """what surrounds a packet without being part of what it asks for — the relayer that delivered it (anyone: the orbiter account,
+    a fee recipient, the forwarding recipient, the dust collector), its sequence number and timeouts, the height and time of the
+    block — changes nothing: the same transfers under every setting"""
+    lines, _ = scen.base_setup()
+    tok = toks[0][0]
+    fee = [fee_action([(U[4], "b", 100), (U[3], "a", 7)])]
+    probes = [orb_pkt("recv", 10 ** 6, cctp_fwd(domain=0), fee), orb_pkt("recv", 10 ** 6, int_fwd(U[1]), fee), orb_pkt("recv", 10 ** 6, hyp_fwd(tok, domain=1), fee),
+              orb_pkt("recvh", 10 ** 6, int_fwd(U[1]), [swap_action(), fee[0]]), orb_pkt("recv", 10 ** 6, int_fwd(U[1]), None, denom="uother"),
+              orb_pkt("recv", 10 ** 6, cctp_fwd(domain=0, passthrough=b"\x01")), orb_pkt("recv", 999, int_fwd(ORB)), orb_pkt("recv", 5, int_fwd(U[1]), [fee_action([(U[4], "a", 5)])]),
+              pkt_line("recv", ftpd("uatom", 7, U[0], memo(int_fwd(U[1])))), "query DispatchedAmountsBySrc %s nopage" % hx("PROTOCOL_IBC")]
+    settings = [("-", "-", "-", "-", "-", "-")]
+    for rel in (ORB_BYTES, addr(4 + 1), addr(1 + 1), DUST_BYTES, b"", b"\x01", bytes(32), bytes(20)):
+        settings.append((rel.hex() if rel else "00"[:0] or "", "-", "-", "-", "-", "-"))
+    for seq in (0, 1, 2 ** 32, 2 ** 64 - 2):
+        settings.append(("-", str(seq), "-", "-", "-", "-"))
+    for th, ts in ((1, 0), (0, 1), (2 ** 63, 2 ** 63), (0, 0)):
+        settings.append(("-", "-", str(th), str(ts), "-", "-"))
+    for h_, t_ in ((1, 1), (2, 0), (10 ** 6, 1700000000), (2 ** 62, 4102444800), (17, 1700000000), (100, 1700000001), (1000, 1800000000)):
+        settings.append(("-", "-", "-", "-", str(h_), str(t_)))
+    # the same packet again and again (what a first use computes, a later use may not recompute), with an in-place restart between
+    for pr in probes[:8]:
+        lines += [pr, pr, pr]
+    lines += ["export", "reimport"]
+    for pr in probes[:8]:
+        lines += [pr, pr]
+    for st_ in settings:
+        st2 = tuple(x if x != "" else "-" for x in st_)
+        lines.append("env meta " + " ".join(st2))
+        lines += probes
+        lines.append("deposit %s %s 3" % (hx(ORB_BYTES), hx("uusdc")))
+    lines.append("export")
+    return lines
+
+
 def shared_scenarios(seed, toks, tier, skip=()):
     """scenario generators written for one property and useful to every property about the outcome of a transfer: each property
     runs them at its own projection and under its own oracle"""
@@ -772,6 +835,7 @@ def shared_scenarios(seed, toks, tier, skip=()):
     add("fee-boundaries", lambda: c04_e2e_lines(Rng(seed * 1000 + 906), 30))
     add("pause-levels", lambda: scen.base_setup()[0] + ["deposit %s %s %d" % (hx(POOL), hx("uother"), 10 ** 30)] + pause_targeted(toks))
     add("case-variant-denominations", lambda: case_variant_lines(toks))
+    add("surroundings", lambda: surroundings_lines(toks))
     add("spellings", lambda: scen.base_setup()[0] + [pkt_line("recv", ftpd("transfer/channel-7/uusdc", 100000, ORB, m)) for m in scen._camel_combo_memos()])
     return [(name, fn()) for (name, fn) in out]
 
